@@ -101,6 +101,36 @@ fn calibration() -> SelectionCalibration {
     }
 }
 
+/// the calibration that isolates the permutation component: a vanishing analytic weight makes the analytic component 1
+fn calibration_perm() -> SelectionCalibration {
+    SelectionCalibration {
+        permutation_order_budget: NonZero::new(50_000).expect("nonzero"),
+        analytic_weight: 1e-10,
+        accept_analytic_below: f64::MIN_POSITIVE,
+        reject_at_or_above: 1.0,
+    }
+}
+
+thread_local! {
+    /// every PERM_EVERY-th sample of 6 points gets the permutation-component rows (all smaller samples do)
+    static PERM_EVERY: std::cell::Cell<u64> = const { std::cell::Cell::new(40) };
+    static PERM_SEEN: std::cell::Cell<u64> = const { std::cell::Cell::new(0) };
+}
+
+/// number of distinct orderings of the sample: n! / prod(c_i!)
+fn orbit_order(x: &[i64]) -> f64 {
+    let fact = |k: usize| (1..=k).map(|i| i as f64).product::<f64>();
+    let mut d = fact(x.len());
+    let mut seen: Vec<i64> = vec![];
+    for v in x {
+        if !seen.contains(v) {
+            seen.push(*v);
+            d /= fact(x.iter().filter(|w| *w == v).count());
+        }
+    }
+    d
+}
+
 fn as_int(v: f64, frac: &mut u32) -> i64 {
     if v.is_finite() && v.fract() == 0.0 && v.abs() < 1.0e9 {
         v as i64
@@ -139,6 +169,11 @@ fn seq_record_of(x: &[i64], vals: &[Vec<f64>], with_aff: bool) -> Value {
     let mut frac = 0u32;
     let mut rank_rows = vec![];
     let mut p_rows = vec![];
+    let mut perm_rows = vec![];
+    let want_perm = with_aff && n >= 2 && (n <= 5 || (n == 6 && PERM_SEEN.with(|c| {
+        c.set(c.get() + 1);
+        c.get() % PERM_EVERY.with(std::cell::Cell::get) == 0
+    })));
     for v in vals {
         let v = v.clone();
         let pet = pettitt(&v);
@@ -160,6 +195,19 @@ fn seq_record_of(x: &[i64], vals: &[Vec<f64>], with_aff: bool) -> Value {
             None => (0, 0, (0, 0), (0, 0), (0, 0), (0, 0)),
         };
         rank_rows.push(json!([ps, pi, pk, as_int(mk.s, &mut frac), ss, si, tp.0, tp.1, sup.0, sup.1]));
+        if want_perm {
+            // adjusted p under the permutation-only calibration, as a multiple of 1 / (number of distinct orderings)
+            let d = orbit_order(x);
+            let row = match vrt::catch(|| selection_adjusted_change_point(&v, 1, calibration_perm())) {
+                Ok(Some(sp)) => {
+                    let a = nr(sp.adjusted_p, d);
+                    json!([1, a.0, a.1, i32::from(sp.adjusted_p == sp.tainted_p), d as i64])
+                }
+                Ok(None) => json!([0, 0, 0, 0, d as i64]),
+                Err(_) => json!([-1, 0, 0, 0, d as i64]),
+            };
+            perm_rows.push(row);
+        }
         let mkp = phl(mk.p_value);
         p_rows.push(json!([pp.0, pp.1, mkp.0, mkp.1, tpp.0, tpp.1, adj.0, adj.1]));
     }
@@ -195,7 +243,7 @@ fn seq_record_of(x: &[i64], vals: &[Vec<f64>], with_aff: bool) -> Value {
         };
         big_rows.push(json!([e, ms, md.0, md.1]));
     }
-    json!({"op":"seq","x":x,"rank":rank_rows,"pp":p_rows,"aff":aff_rows,"big":big_rows,"frac":frac})
+    json!({"op":"seq","x":x,"rank":rank_rows,"pp":p_rows,"aff":aff_rows,"big":big_rows,"perm":perm_rows,"frac":frac})
 }
 
 fn split_record(x: &[i64], t: usize) -> Value {
@@ -234,6 +282,9 @@ fn ints(v: &Value) -> Vec<i64> {
 
 /// cases: {"x":[..]} as printed by MC_RankStats (RCASE)
 fn cmd_ranks(cases: &str, out: &str) {
+    if let Ok(k) = std::env::var("H_STATS_PERM_EVERY") {
+        PERM_EVERY.with(|c| c.set(k.parse().expect("H_STATS_PERM_EVERY")));
+    }
     let tr = Tracer::create(out);
     tr.emit(&json!({"op":"embs","rank":RANK_EMBS,"aff":AFF.iter().map(|(a, b)| vec![*a, *b]).collect::<Vec<_>>()}));
     let mut n = 0usize;
